@@ -1166,9 +1166,11 @@ TARGETS = [
     ('function', 'photutils.centroids.core', 'centroid_sources', None, ['centroid_sources'], [r'^centroid_sources:']),
     ('function', 'photutils.centroids.gaussian', 'centroid_1dg', None, ['centroid_1dg'], [r'^centroid_1dg:']),
     ('function', 'photutils.centroids.gaussian', 'centroid_2dg', None, ['centroid_2dg'], [r'^centroid_2dg:']),
-    ('function', 'photutils.utils._convolution', '_filter_data', None, ['StarFinder', 'SourceCatalog'], [r'^_filter_data']),
+    ('function', 'photutils.utils._convolution', '_filter_data', None,
+     ['StarFinder', 'DAOStarFinder', 'IRAFStarFinder', 'PSFPhotometry'], [r'^_filter_data']),
     ('function', 'photutils.utils.errors', 'calc_total_error', None, ['calc_total_error'], [r'^calc_total_error:']),
-    ('function', 'photutils.utils._quantity_helpers', 'process_quantities', None, ['RadialProfile', 'centroid_1dg'], []),
+    ('function', 'photutils.utils._quantity_helpers', 'process_quantities', None,
+     ['RadialProfile', 'CurveOfGrowth', 'centroid_1dg', 'centroid_2dg', 'StarFinder'], []),
     ('function', 'photutils.segmentation.detect', 'detect_sources', None, ['detect_sources'], [r'^detect_sources:']),
     ('methods', 'photutils.psf.photometry', 'PSFPhotometry', ['_make_mask'], ['PSFPhotometry'], [r'^PSFPhotometry:call:mask']),
     ('class', 'photutils.profiles.radial_profile', 'RadialProfile', None, ['RadialProfile'], [r'^ProfileBase', r'^RadialProfile:']),
@@ -1461,13 +1463,15 @@ def static_obligations(ctx, found):
             why = ('the analysis does not accept the IR of the current source'
                    + (f': {d}' if d else ' (observed result aliasing not predicted)'))
         import re
-        explained = [s for s in found if any(re.search(p, _canon(s)) for p in r['sigs'])]
+        def explains(sig):
+            return any(re.search(p, _canon(sig)) for p in r['sigs']) or sig.split(':')[0] in r['scen']
+        explained = [s for s in found if explains(s)]
         if not explained:
             # violation search: intensified dynamic sweep of the related scenarios
             more = dynamic_sweep(ctx, 4.0 if ctx.tier == 'quick' else 12.0, only=r['scen'])
             for s_, v_ in more.items():
                 found.setdefault(s_, v_)
-            explained = [s for s in more if any(re.search(p, _canon(s)) for p in r['sigs'])]
+            explained = [s for s in more if explains(s)]
         detail['explained_by'] = sorted({_canon(s) for s in explained})
         ctx.stat('obligations', 'rejected_explained_by_concrete_input' if explained else 'rejected_no_input')
         if not explained:
